@@ -1533,6 +1533,8 @@ def run(ctx):
             cases = all_pairs if full else small_pairs
             if ctx.quick and kind == "brownian" and route not in ("european", "variance_swap"):
                 cases = slow_pairs      # the six classes share BaseDerivative.simulate; two of them see every pair
+            if ctx.quick and kind != "brownian" and route not in ("european", "variance_swap"):
+                continue    # quick: the other primaries go through two of the six classes (shared BaseDerivative.simulate)
             for n_paths in ((2, 1) if kind == "brownian" else (2,)):
                 cs = small_pairs if (ctx.quick and n_paths == 1) else cases
                 for ch in _chunks(cs, 400):
@@ -1569,7 +1571,7 @@ def run(ctx):
                 blocks.append(("grid_use", {"primary": kind, "route": route, "n_paths": 2, "light": ctx.quick, "cases": ch}))
 
     # two underliers on different step sizes (both orders of every pair of dt symbols)
-    Kc = ctx.pick(6, 24)
+    Kc = ctx.pick(4, 24)
     cpairs, skipped = cross_pairs(dts, Kc)
     ctx.add("cross_dt_pairs", len(cpairs))
     ctx.add("cross_dt_pairs_in_undefined_zone_skipped", skipped)
@@ -1592,7 +1594,7 @@ def run(ctx):
                 if ctx.quick and route != "european" and dt == hdts[2]:
                     continue
                 for dtype in (("float64",) if (ctx.quick and (route != "european" or dt != hdts[0])) else ("float64", "float32")):
-                    hs = hists if (route == "european" and kind == "brownian" and (ctx.thorough or dt == hdts[0])) or \
+                    hs = hists if (route == "european" and kind == "brownian" and (ctx.thorough or (dt == hdts[0] and dtype == "float64"))) or \
                         (ctx.thorough and kind == "brownian") else perms
                     if kind != "brownian":
                         hs = perms
@@ -1704,7 +1706,7 @@ def run(ctx):
     lops = ["sim_listed", "sim_exotic", "sim_stock", "set_buffer"]
     lh = [list(h) for L in range(1, ctx.pick(3, 4) + 1) for h in itertools.product(lops, repeat=L)]
     ctx.alphabet("listed_shared operations", lops)
-    for dt_ in ([1 / 250, 0.1] if ctx.quick else [d_[1] for d_ in dts]):
+    for dt_ in ([1 / 250] if ctx.quick else [d_[1] for d_ in dts]):
         for ch in _chunks(lh, 64):
             blocks.append(("listed_shared", {"dt": dt_, "dtype": "float64", "histories": ch}))
     # payoffs vs the running-extremum features on ALL scripted paths
